@@ -228,6 +228,9 @@ type Spec struct {
 	EscapeMatters func(t *Tracer, fr *Frame, mc *ssa.MakeClosure) bool
 	MaxPaths int
 	MaxDepth int
+	// EdgeLimit is how often one CFG edge may be taken on a path (default 1:
+	// loops run 0 or 1 times; 2 lets a rule see the second iteration).
+	EdgeLimit int
 }
 
 // Tracer enumerates paths of one root.
@@ -395,9 +398,17 @@ func (t *Tracer) classify(fr *Frame, in ssa.Instruction) []Ev {
 }
 
 func (t *Tracer) follow(fr *Frame, from, to *ssa.BasicBlock, st State, k func(State, []Ref)) {
+	lim := t.Spec.EdgeLimit
+	if lim == 0 {
+		lim = 1
+	}
+	n := 0
 	for e := st.edges; e != nil; e = e.next {
 		if e.fr == fr && e.from == from.Index && e.to == to.Index {
-			return // each CFG edge at most once per path: loops run 0 or 1 times
+			n++
+			if n >= lim {
+				return // each CFG edge at most lim times per path: loops run 0..lim times
+			}
 		}
 	}
 	st.edges = &edgeList{fr: fr, from: from.Index, to: to.Index, next: st.edges}
@@ -482,6 +493,18 @@ func (t *Tracer) valKey(fr *Frame, v ssa.Value, st State) string {
 	r := t.Resolve(fr, v)
 	if f, base := fieldLoad(r.V); f != nil {
 		return fmt.Sprintf("fld(%s.%s#%d)", t.valKey(r.Fr, base, st), f.Name(), st.epoch(f))
+	}
+	// a value computed inside a loop is a new value on every iteration
+	if in, ok := r.V.(ssa.Instruction); ok && in.Block() != nil {
+		n := 0
+		for e := st.edges; e != nil; e = e.next {
+			if e.fr == r.Fr && e.to == in.Block().Index {
+				n++
+			}
+		}
+		if n > 1 {
+			return fmt.Sprintf("%s@%d", r.Key(), n)
+		}
 	}
 	return r.Key()
 }
